@@ -388,9 +388,17 @@ class Theory:
             if seq.rule in primitive_deriv:
                 # If the method is one of the primitive derivations, obtain and
                 # apply that primitive derivation.
-                rule_fun, _ = primitive_deriv[seq.rule]
+                rule_fun, sig = primitive_deriv[seq.rule]
+                # Only the cited items are premises: the argument is passed
+                # exactly when the rule's signature asks for one, and it
+                # must be of the kind the signature names.
+                if sig is None:
+                    if seq.args is not None:
+                        raise CheckProofException("invalid input to derivation %s: the rule takes no argument" % seq.rule)
+                elif not isinstance(seq.args, sig):
+                    raise CheckProofException("invalid input to derivation " + seq.rule)
                 try:
-                    res_th = rule_fun(*prev_ths) if seq.args is None else rule_fun(seq.args, *prev_ths)
+                    res_th = rule_fun(*prev_ths) if sig is None else rule_fun(seq.args, *prev_ths)
                     if rpt is not None:
                         rpt.apply_primitive_deriv()
                 except InvalidDerivationException:
